@@ -69,7 +69,9 @@ CHECKS.update({
             "Every test function is called on generated series (arbitrary finite float64 incl. 1e308 and subnormals, NaN/None/"
             "masked, lengths 0-2 forced) under several carriers and must return one unmasked valid flag per element, leave "
             "every argument byte-identical and repeat its answer; a Hypothesis RuleBasedStateMachine interleaves tests on a "
-            "pool of fixtures with other stateful corners of the package and requires history-independent results.",
+            "pool of fixtures with other stateful corners of the package and requires history-independent results; every "
+            "fixture's argument objects (incl. ClimatologyConfig objects, digested with all attributes) stay alive for the "
+            "whole history, are compared with freshly built equal objects and are cross-used between fixtures.",
             "pressure_increasing_test / valid_range_test get float64 arrays only; strictly increasing whole-second axes",
             "DESIGN.md 4 C01"),
     "C02": ("Exhaustive enumeration of all 2^n missing-value placements (n<=8; joint value x auxiliary placements n<=5) + Hypothesis search; forward and converse predicates",
@@ -103,7 +105,9 @@ CHECKS.update({
             "int64, masked arrays with NaN or finite junk under the mask, pandas Series with default/shifted index, dask, "
             "object arrays), 12 time carriers (datetime64 of four units, datetimes, Timestamps, naive and UTC-aware "
             "DatetimeIndex/Series, epoch seconds as list/int/float) and list/tuple spans, one at a time and mixed; flags "
-            "must equal those under float64 + datetime64[ns]. valid_range_test is swept separately with and without dtype=.",
+            "must equal those under float64 + datetime64[ns] (also for sub-second instants). valid_range_test is swept "
+            "separately with and without dtype=. A further sub-check refills the *same* list / array objects with a second "
+            "logical case and compares with fresh canonical arrays (identity-keyed state).",
             "values representable in float32; dask time arrays and non-UTC zones not generated", "DESIGN.md 4 C15"),
 })
 
@@ -125,7 +129,9 @@ CHECKS.update({
             "all-covering, several keys per group, same test name in two modules, absent axis arrays, uint8/int64 flags) "
             "are collected in list and dict form under several yield orders (thorough: every permutation when <=5 "
             "results) and compared row by row with a scatter model: flag on covered rows, masked / UNKNOWN elsewhere, "
-            "source values of data/time/depth/position on covered rows.",
+            "source values of data/time/depth/position on covered rows; read-only input arrays (pandas copy-on-write) are "
+            "included. Domain B runs generated tables/configs end to end through four stream front ends and compares the "
+            "collected list/dict forms and axis arrays with the scatter of the direct calls.",
             "disjoint windows; one CallResult per ContextResult as all stream front ends emit", "DESIGN.md 4 C06"),
 })
 
@@ -134,11 +140,13 @@ CHECKS.update({
             "Generated data tables (0-25 rows, optional z/lat/lon/time columns, five row-index kinds) and configs (1-3 "
             "contexts; closed, one-sided, empty, all-covering or absent windows cut exactly on row timestamps; 11 runnable "
             "tests plus two probe tests that record the arrays they are handed) are run through PandasStream, "
-            "NumpyStream(dict/array), XarrayStream (two layouts), NetcdfStream and QcConfig.run; the multiset of (stream, "
+            "NumpyStream(dict/array), XarrayStream (time as coordinate / as data variable / z-lat-lon as coordinates / on "
+            "another dimension / from a netCDF-3 path), NetcdfStream (Dataset / path) and QcConfig.run (own sub-check: tinp as "
+            "array, list of datetimes or Timestamps, Series, DatetimeIndex; sub-second sampling); the multiset of (stream, "
             "test, row mask, flags) must equal the direct calls on {starting <= t < ending} and the probes must have "
             "received exactly the restricted arrays.",
-            "naive windows, no regions; open findings K-1/K-2/K-3 (XarrayStream windows) are excluded only when the outcome "
-            "equals what those defects produce exactly", "DESIGN.md 4 C05"),
+            "naive windows, no regions; open findings K-1/K-2/K-3/K-10 (XarrayStream windows) are excluded only when the "
+            "outcome equals what those defects produce exactly (K-10: the KeyError on that layout with a two-sided window)", "DESIGN.md 4 C05"),
 })
 
 CHECKS.update({
